@@ -223,25 +223,33 @@ def run(ctx):
             samples.append({"ngram": om["ngram"], "alphabet": om["alphabet"], "modes": om["modes"], "level": T,
                             "emitted": len(o), "first": o[:4]})
     # ---- correspondence
-    per = 3
+    # balanced shards: largest case first onto the least loaded shard
+    nsh = min(len(cases), common.NCPU) or 1
+    lits = [coq_case(c, coq_cap, model_cap, dist) for c in cases]
+    load = [0] * nsh
+    members = [[] for _ in range(nsh)]
+    for i in sorted(range(len(cases)), key=lambda i: -(len(lits[i]) + 40 * len(cases[i]["om"]["cp"]))):
+        k = load.index(min(load))
+        members[k].append(i)
+        load[k] += len(lits[i]) + 40 * len(cases[i]["om"]["cp"])
     shards = []
-    for s in range(0, len(cases), per):
-        chunk = cases[s:s + per]
+    for k in range(nsh):
         src = list(HEADER)
         src.append("Definition cases : list omen_case := [")
-        src.append(";\n".join(coq_case(c, coq_cap, model_cap, dist) for c in chunk))
+        src.append(";\n".join(lits[i] for i in members[k]))
         src.append("].")
         src.append("Eval vm_compute in (ofailing check_case cases).")
-        shards.append(("s%04d" % (s // per), "\n".join(src)))
+        shards.append(("s%04d" % k, "\n".join(src)))
     corr = []
-    for (name, idx, log), s in zip(common.run_case_shards("C10", shards), range(0, len(cases), per)):
+    for name, idx, log in common.run_case_shards("C10", shards):
+        k = int(name[1:])
         if idx is None:
             corr.append(("omen-run:" + name, False, log[-800:]))
         elif idx:
-            c = cases[s + idx[0]]
+            c = cases[members[k][idx[0]]]
             corr.append(("omen-run:" + name, False, "model and implementation differ (loader tables, emitted lists per level, "
                          "shared/new cache, or Optimizer content) for cases %s; first model: %s"
-                         % (idx, json.dumps({k: c["om"][k] for k in ("ngram", "ip", "cp", "ln")})[:700])))
+                         % ([members[k][j] for j in idx], json.dumps({q: c["om"][q] for q in ("ngram", "ip", "cp", "ln")})[:700])))
         else:
             corr.append(("omen-run:" + name, True, ""))
     rule = ("random OMEN directories (ngram 2-5, 2-6 symbols incl. non-ASCII, dense/sparse, dead-end prefixes, level modes "
